@@ -191,10 +191,20 @@ def _rdms(x, labels=None, n_cond=None, cgrp=None):
         rd['grp'] = list(labels)
     pd = None
     if n_cond is not None:
-        pd = {'cid': list(range(n_cond))}
+        pd = {'cid': list(range(n_cond)), 'cname': CNAMES[:n_cond]}
         if cgrp is not None:
             pd['cgrp'] = list(cgrp)
     return RDMs(x.copy(), rdm_descriptors=rd, pattern_descriptors=pd)
+
+
+# unique condition names that do NOT ascend along the conditions (presentation order, not alphabetical)
+CNAMES = ['q3', 'a7', 'm1', 'z0', 'b5', 'k2', 'y9', 'c4', 'x8', 'd6', 'w2', 'e1', 'v5']
+
+
+def _scrambled(n):
+    """a fixed permutation of range(n) far from the identity: odd positions, then even ones backwards"""
+    order = list(range(n))
+    return order[1::2] + order[0::2][::-1]
 
 
 def _state(obj):
@@ -336,9 +346,25 @@ def shards(tier, seed):
                     out.append({'kind': 'EV', 'routine': routine, 'variant': variant, 'setting': si})
             else:
                 out.append({'kind': 'EV', 'routine': routine, 'variant': variant})
+    # SZ: stacks of 34-40 RDMs in 20-24 descriptor groups of 1-2 RDMs with string / float / spread-int labels
+    # (sizes at which numpy switches its set-membership algorithms), direct ceiling routines
+    for kind in SZ_LABEL_KINDS:
+        for struct in range(3):
+            out.append({'kind': 'SZ', 'labels': kind, 'struct': struct})
+    # PD: pattern descriptors that do not ascend along the conditions, pattern folds
+    for gen in ('k_fold', 'random', 'k_fold_pattern', 'of_k_pattern', 'loo_pattern'):
+        for n_rdm in (2, 3):
+            out.append({'kind': 'PD', 'gen': gen, 'n_rdm': n_rdm})
     return out
 
 
+SZ_LABEL_KINDS = ['str', 'float', 'spread']
+# (pattern descriptor used for the folds, in-place re-ordering of the object before the call)
+PD_VARIANTS = [('cname', None), ('index', 'reorder'), ('index', 'sort_by'), ('cname', 'reorder'), ('cgrp', None),
+               ('cgrp', 'reorder')]
+PD_CGRP = {6: ['t', 'b', 't', 'm', 'b', 'm'], 7: ['t', 'b', 't', 'b', 'b', 't', 'b'],
+           9: ['t', 'b', 'm', 'm', 't', 'b', 'b', 'm', 't'], 10: ['t', 'b', 'm', 't', 'b', 'b', 'm', 't', 'm', 't'],
+           12: [4, 1, 5, 0, 1, 3, 2, 4, 0, 5, 3, 2]}
 EV_ROUTINES = ['eval_bootstrap', 'eval_bootstrap_rdm', 'eval_bootstrap_pattern', 'bootstrap_crossval',
                'eval_dual_bootstrap']
 EV_LABELS = [[12, 12, 11, 11, 10], ['cz', 'ca', 'cz', 'cm', 'ca', 'cm']]    # groups of 2 (+1) RDMs, interleaved
@@ -420,8 +446,119 @@ def run_shard(shard, ctx):
         _shard_rk(shard, ctx)
     elif kind == 'EV':
         _shard_ev(shard, ctx)
+    elif kind == 'SZ':
+        _shard_sz(shard, ctx)
+    elif kind == 'PD':
+        _shard_pd(shard, ctx)
     else:
         raise ValueError(kind)
+
+
+def _sz_labels(kind, struct):
+    """group label of every RDM: 20 groups of 2 / 22 groups (12 of them pairs) / 24 groups alternating 2, 1;
+    members of a group are never neighbours; label values are strings, non-integral floats or integers
+    spread over a wide range, in an order unrelated to the group number"""
+    sizes = [[2] * 20, [2] * 12 + [1] * 10, [2, 1] * 12][struct]
+    n_groups = len(sizes)
+    members = [g for g, k in enumerate(sizes) for _ in range(k)]
+    n = len(members)
+    members = [members[(7 * i) % n] for i in range(n)]          # 7 is coprime to 40, 34, 36
+    code = [(5 * g + 3) % n_groups if n_groups % 5 else (7 * g + 3) % n_groups for g in range(n_groups)]
+    if kind == 'str':
+        names = ['sub-%02d' % (3 + 2 * c) for c in code]
+    elif kind == 'float':
+        names = [0.25 + 1.5 * c for c in code]
+    else:
+        names = [1000 + 97 * c for c in code]
+    assert len(set(names)) == n_groups
+    return [names[g] for g in members]
+
+
+def _shard_sz(shard, ctx):
+    labels = _sz_labels(shard['labels'], shard['struct'])
+    n_rdm = len(labels)
+    thorough = ctx.tier == 'thorough'
+    for n_cond in (4, 5):
+        L = n_cond * (n_cond - 1) // 2
+        for style in ([0, 2] if thorough else [[0, 2][(n_cond + shard['struct']) % 2]]):
+            fill = {'n_rdm': n_rdm, 'L': L, 'key': 0, 'style': style}
+            masks = [[]] + ([[1, 4]] if n_cond == 5 else [])
+            for mask in masks:
+                for m in REFD:
+                    run_case({'kind': 'boot', 'fill': fill, 'n_cond': n_cond, 'mask': mask, 'labels': labels,
+                              'method': m, 'cands': None}, ctx)
+            # the training set of every fold is exactly the remaining groups; its pooled RDM does not move
+            # when the left-out group's data change
+            run_case({'kind': 'leak', 'fill': fill, 'n_cond': n_cond, 'mask': [], 'labels': labels,
+                      'method': PLAIN[shard['struct']], 'each_entry': False}, ctx)
+            for gen, params in [('loo_rdm', {}), ('k_fold_rdm', {'k_rdm': 2}), ('k_fold_rdm', {'k_rdm': 3}),
+                                ('k_fold_rdm', {'k_rdm': 7})]:
+                for mi, m in enumerate(PLAIN + ['tau-a']):
+                    if gen == 'k_fold_rdm' and mi != (params['k_rdm'] + n_cond) % 4 and not thorough:
+                        continue
+                    case = {'kind': 'cv', 'gen': gen, 'fill': fill, 'n_cond': n_cond, 'mask': [],
+                            'labels': labels, 'params': params, 'random': False, 'method': m,
+                            'per_fold': gen == 'k_fold_rdm'}
+                    _cv_exec(case, Env([]), ctx)
+                    if gen == 'loo_rdm' and mi == n_cond % 4:
+                        _cv_exec(dict(case, via='crossval', per_fold=False), Env([]), ctx)
+
+
+def _shard_pd(shard, ctx):
+    gen, n_rdm = shard['gen'], shard['n_rdm']
+    thorough = ctx.tier == 'thorough'
+    labelings = [[12, 11, 10][:n_rdm]] + ([[11, 10, 11]] if n_rdm == 3 else [])
+    if gen == 'k_fold':
+        confs = [(6, {'k_rdm': n_rdm, 'k_pattern': 2}), (7, {'k_rdm': 2, 'k_pattern': 2}),
+                 (10, {'k_rdm': 1, 'k_pattern': 3}), (12, {'k_rdm': 2, 'k_pattern': 2})]
+    elif gen == 'random':
+        confs = [(6, {'n_rdm': 1, 'n_pattern': 3, 'n_cv': 2}), (7, {'n_rdm': 0, 'n_pattern': 4, 'n_cv': 1})]
+    elif gen == 'k_fold_pattern':
+        confs = [(7, {'k': 2}), (10, {'k': 3}), (12, {'k': 3})]
+    elif gen == 'of_k_pattern':
+        confs = [(7, {'size': 3}), (10, {'size': 3})]
+    else:
+        confs = [(6, {}), (9, {})]
+    for n_cond, params in confs:
+        fill = {'n_rdm': n_rdm, 'L': n_cond * (n_cond - 1) // 2, 'key': 0, 'style': 0 if n_cond % 2 else 2}
+        for labels in labelings:
+            if gen in ('k_fold', 'random') and len(set(labels)) <= params.get('n_rdm', params.get('k_rdm', 1)) - 1:
+                continue
+            if gen == 'k_fold' and len(set(labels)) < params['k_rdm']:
+                continue
+            for vi, (pdesc, inplace) in enumerate(PD_VARIANTS):
+                if gen == 'loo_pattern' and pdesc != 'cgrp':
+                    continue
+                if n_cond == 12 and pdesc != 'cgrp':
+                    continue        # 12 conditions = six groups of two: folds over the grouping descriptor
+                if pdesc == 'cgrp' and gen in ('random', 'of_k_pattern'):
+                    continue        # group counts too small for these generators' test sets
+                if pdesc == 'cgrp' and gen == 'k_fold' and n_cond not in (12,):
+                    continue
+                if pdesc == 'cgrp' and gen == 'k_fold_pattern' and n_cond != 12:
+                    continue
+                p = dict(params, cgrp=PD_CGRP[n_cond]) if pdesc == 'cgrp' else params
+                for mi, m in enumerate(PLAIN + ['spearman']):
+                    if mi == 3 and vi % 2:
+                        continue
+                    randoms = [False] if gen in ('loo_pattern',) else ([True] if gen == 'random' else [False, True])
+                    for random in randoms:
+                        case = {'kind': 'cv', 'gen': gen, 'fill': fill, 'n_cond': n_cond, 'mask': [],
+                                'labels': labels, 'params': p, 'random': random, 'method': m,
+                                'pdesc': pdesc, 'inplace': inplace, 'per_fold': True}
+                        if not random:
+                            _cv_exec(case, Env([]), ctx)
+                            if gen in ('k_fold', 'loo_pattern') and mi == vi % 3:
+                                _cv_exec(dict(case, via='crossval', per_fold=False), Env([]), ctx)
+                            continue
+                        # shuffled folds: every draw with <= 1 non-default answer for one method and variant
+                        deep = mi == vi % 3 and labels is labelings[0] and (thorough or vi in (0, 1))
+                        stats = Stats()
+                        for _env, _ in explore(lambda env: _cv_exec(case, env, ctx), bound=1 if deep else 0,
+                                               max_exec=3000, stats=stats):
+                            pass
+                        if stats.capped:
+                            ctx.count('cap_hit')
 
 
 def _shard_ev(shard, ctx):
@@ -1392,6 +1529,11 @@ def _cv_exec(case, env, ctx):
     pdesc = 'index'
     with ctx.guard(sigp, _Replayable(case, env)):
         rdms = _rdms(_masked(full, mask), labels, n_cond, params.get('cgrp'))
+        if case.get('inplace') == 'reorder':
+            rdms.reorder(np.array(_scrambled(n_cond)))          # permutes every pattern descriptor, 'index' too
+        elif case.get('inplace') == 'sort_by':
+            rdms.sort_by(reindex=False, cname='alpha')
+        pdesc = case.get('pdesc', 'index')
         with installed(RngEnv(env)):
             if gen == 'loo_rdm':
                 train_set, test_set, ceil_set = cvs.sets_leave_one_out_rdm(rdms, 'grp')
@@ -1401,11 +1543,11 @@ def _cv_exec(case, env, ctx):
             elif gen == 'k_fold':
                 train_set, test_set, ceil_set = cvs.sets_k_fold(
                     rdms, k_rdm=params['k_rdm'], k_pattern=params['k_pattern'], random=case['random'],
-                    pattern_descriptor='index', rdm_descriptor='grp')
+                    pattern_descriptor=pdesc, rdm_descriptor='grp')
             elif gen == 'random':
                 train_set, test_set, ceil_set = cvs.sets_random(
                     rdms, n_rdm=params['n_rdm'], n_pattern=params['n_pattern'], n_cv=params['n_cv'],
-                    pattern_descriptor='index', rdm_descriptor='grp')
+                    pattern_descriptor=pdesc, rdm_descriptor='grp')
             elif gen == 'loo_pattern':
                 pdesc = 'cgrp'
                 train_set, test_set, ceil_set = cvs.sets_leave_one_out_pattern(rdms, 'cgrp')
@@ -1416,7 +1558,7 @@ def _cv_exec(case, env, ctx):
                     rdms, pattern_descriptor=pdesc, k=params['k'], random=case['random'])
             elif gen == 'of_k_pattern':
                 train_set, test_set, ceil_set = cvs.sets_of_k_pattern(
-                    rdms, pattern_descriptor='index', k=params['size'], random=case['random'])
+                    rdms, pattern_descriptor=pdesc, k=params['size'], random=case['random'])
             else:
                 raise ValueError(gen)
         done = dict(case, choices=list(env.choices))
